@@ -603,7 +603,19 @@ func openBackend(name string) (*real, error) {
 		r.store = memory.New()
 		return r, nil
 	}
-	dir, err := os.MkdirTemp("", "verif-c15-"+name+"-")
+	// pebble commits with Sync=true; on the shared disk thousands of tiny fsyncs make the
+	// wall time depend on what the other checks are doing, so the scratch stores go to
+	// tmpfs when there is one (TMPDIR, if set, wins).
+	base := ""
+	if os.Getenv("TMPDIR") == "" {
+		if fi, err := os.Stat("/dev/shm"); err == nil && fi.IsDir() {
+			base = "/dev/shm"
+		}
+	}
+	dir, err := os.MkdirTemp(base, "verif-c15-"+name+"-")
+	if err != nil && base != "" {
+		dir, err = os.MkdirTemp("", "verif-c15-"+name+"-")
+	}
 	if err != nil {
 		return nil, err
 	}
@@ -1024,12 +1036,14 @@ var hexRun = regexp.MustCompile(`[0-9a-f]*=[0-9a-f]*`)
 // shape strips the concrete bytes out of a result so that it can be part of a class.
 func shape(res string) string {
 	switch {
+	case strings.HasPrefix(res, "has="):
+		return res[4:]
 	case strings.HasPrefix(res, "val="):
 		return "value"
 	case strings.HasPrefix(res, "at ") && !strings.Contains(res, " but ") && !strings.Contains(res, "value-error"):
 		return "entry"
 	case strings.HasPrefix(res, "["):
-		return fmt.Sprintf("list%d", strings.Count(res, "="))
+		return "list"
 	case strings.HasPrefix(res, "panic"):
 		return "panic"
 	case strings.HasPrefix(res, "size=") || strings.HasPrefix(res, "size>="):
@@ -1084,6 +1098,11 @@ func (c *collector) add(d divergence) {
 // report turns the collected divergences into violations: the keepPerClass lowest
 // case indices of every class (deterministic), the rest only counted.
 func (c *collector) report(r *lib.Run) {
+	c.mu.Lock()
+	defer func() { // reporting is done per phase
+		c.divs, c.cnt = map[string][]divergence{}, map[string]int{}
+		c.mu.Unlock()
+	}()
 	classes := make([]string, 0, len(c.divs))
 	for k := range c.divs {
 		classes = append(classes, k)
@@ -1112,8 +1131,47 @@ func classify(o *op, backend, want, got string, variantRes map[int]string, snapC
 			return variantName(f) + ":" + backend
 		}
 	}
-	obj := o.Obj
-	return fmt.Sprintf("%s.%s:expected-%s-got-%s:%s", obj, o.Kind, shape(want), shape(got), backend)
+	if strings.HasPrefix(want, "[") && strings.HasPrefix(got, "[") && strings.HasSuffix(got, "]") {
+		ws, gs := map[string]bool{}, map[string]bool{}
+		for _, e := range strings.Fields(strings.Trim(want, "[]")) {
+			ws[e] = true
+		}
+		missing, extra := 0, 0
+		for _, e := range strings.Fields(strings.Trim(got, "[]")) {
+			gs[e] = true
+			if !ws[e] {
+				extra++
+			}
+		}
+		for e := range ws {
+			if !gs[e] {
+				missing++
+			}
+		}
+		how := "wrong-order"
+		switch {
+		case missing > 0 && extra > 0:
+			how = "different-entries"
+		case missing > 0:
+			how = "entries-missing"
+		case extra > 0:
+			how = "extra-entries"
+		}
+		return fmt.Sprintf("%s.%s:%s:%s", o.Obj, o.Kind, how, backend)
+	}
+	if len(o.Sub) > 0 { // helper: name the first part that differs
+		wp, gp := strings.Split(want, ";"), strings.Split(got, ";")
+		for i := 0; i < len(wp) && i < len(gp); i++ {
+			if !match(wp[i], gp[i]) {
+				sub := "return"
+				if i < len(o.Sub) {
+					sub = "callback-" + o.Sub[i].Kind
+				}
+				return fmt.Sprintf("%s.%s/%s:expected-%s-got-%s:%s", o.Obj, o.Kind, sub, shape(strings.TrimPrefix(wp[i], "ret=")), shape(strings.TrimPrefix(gp[i], "ret=")), backend)
+			}
+		}
+	}
+	return fmt.Sprintf("%s.%s:expected-%s-got-%s:%s", o.Obj, o.Kind, shape(want), shape(got), backend)
 }
 
 // runSequence generates one operation sequence and applies it call by call to the
